@@ -475,12 +475,14 @@ func (x *Exec) groundAxioms(seen map[*Term]bool) []*Term {
 		case t.Op == "select" && t.Sort == SInt:
 			// what the simplifier knows about the range of a memory cell (by the element type of
 			// its heap) is given to the solver too, for the ground cells that occur
-			if os.Getenv("GVC_DBGB") != "" {
-				lo, hi := b.Bounds(t)
-				fmt.Fprintln(os.Stderr, "DBGB", b.Show(t), lo, hi)
+			// (cells read by the program carry their range as a path assumption already)
+			if lo, _ := b.Bounds(t); lo != nil {
+				break
 			}
-			if lo, hi := b.Bounds(t); lo != nil && hi != nil && lo.Sign() >= 0 && hi.BitLen() <= 64 {
-				out = append(out, b.mk("<=", SBool, "", nil, b.IntB(lo), t))
+			if hi := unsignedHeapCellMax(t); hi != nil {
+				// a ground cell of an unsigned element heap that was produced by instantiating a
+				// quantified clause (reads under a bound variable carry no range fact of their own)
+				out = append(out, b.mk("<=", SBool, "", nil, b.Int(0), t))
 				out = append(out, b.mk("<=", SBool, "", nil, t, b.IntB(hi)))
 			}
 		case t.Op == "const" && strings.HasPrefix(t.Name, "glob:"):
@@ -792,4 +794,26 @@ func (x *Exec) learnBoundsOf(t *Term, syms map[*Term]bool) {
 			}
 		}
 	}
+}
+
+// unsignedHeapCellMax returns the largest value of a cell read from the heap of byte elements (the root
+// of the array term is a heap constant H_u8...), or nil. Wider element types are left out on purpose:
+// their cells occur in many queries that do not need the fact, and extra facts cost solver time.
+func unsignedHeapCellMax(t *Term) *big.Int {
+	a := t.Args[0]
+	for a.Op == "select" || a.Op == "store" {
+		a = a.Args[0]
+	}
+	if a.Op != "const" {
+		return nil
+	}
+	for _, k := range []struct {
+		p string
+		w uint
+	}{{"H_u8", 8}} {
+		if strings.HasPrefix(a.Name, k.p+"@") || strings.HasPrefix(a.Name, k.p+"_") {
+			return new(big.Int).Sub(new(big.Int).Lsh(big.NewInt(1), k.w), big.NewInt(1))
+		}
+	}
+	return nil
 }
